@@ -4,13 +4,15 @@ import (
 	"encoding/binary"
 	"encoding/hex"
 	"errors"
+	"fmt"
 
 	"github.com/jcmturner/gofork/x/crypto/pbkdf2"
 	"github.com/jcmturner/gokrb5/v8/crypto/etype"
 )
 
 const (
-	s2kParamsZero = 4294967296
+	maxS2KIterations = 0x1000000
+	s2kParamsZero    = 4294967296
 )
 
 // StringToKey returns a key derived from the string provided according to the definition in RFC 3961.
@@ -18,6 +20,11 @@ func StringToKey(secret, salt, s2kparams string, e etype.EType) ([]byte, error) 
 	i, err := S2KparamsToItertions(s2kparams)
 	if err != nil {
 		return nil, err
+	}
+	if i > maxS2KIterations {
+		// The count comes from the KDC (or from whoever answers in its place) before anything is
+		// authenticated: refuse counts that would keep the CPU busy for hours (MIT krb5 uses the same bound).
+		return nil, fmt.Errorf("string-to-key iteration count %d is larger than the supported maximum %d", i, maxS2KIterations)
 	}
 	return StringToKeyIter(secret, salt, i, e)
 }
